@@ -425,6 +425,8 @@ class CoreMixin:
         return n
 
     def ext(self, qual, site=None) -> Node:
+        if qual == "numpy.newaxis":
+            return self.const(None, site)       # np.newaxis is None
         n = self._extnodes.get(qual)
         if n is None:
             n = self.mk("Ext", (), qual, site)
